@@ -40,6 +40,11 @@ type cfg struct {
 	Procs     int        `json:"procs"`
 	ProcOps   [][]string `json:"proc_ops,omitempty"` // per-processor opcode sets (default: Ops for all)
 	Commented bool       `json:"commented"`
+	// ProcDomains: the domain every processor is an instance of (default: processor p = domain p); with
+	// it, machines are built per domain (ProcOps indexes domains) and SOAttach says which shared
+	// objects each processor is attached to (default: all)
+	ProcDomains []int   `json:"proc_domains,omitempty"`
+	SOAttach    [][]int `json:"so_attach,omitempty"`
 }
 
 func (c cfg) opsOf(p int) []string {
@@ -93,7 +98,16 @@ func program(m *procbuilder.Machine) []string {
 
 func build(c cfg) (*bondmachine.Bondmachine, error) {
 	var machs []*procbuilder.Machine
-	for p := 0; p < c.Procs; p++ {
+	nDom := c.Procs
+	if len(c.ProcDomains) > 0 {
+		nDom = 0
+		for _, d := range c.ProcDomains {
+			if d+1 > nDom {
+				nDom = d + 1
+			}
+		}
+	}
+	for p := 0; p < nDom; p++ {
 		m, err := gen.NewMachine(c.Rsize, c.R, c.N, c.M, c.L, c.O, c.Mode, c.opsOf(p))
 		if err != nil {
 			return nil, err
@@ -121,7 +135,42 @@ func build(c cfg) (*bondmachine.Bondmachine, error) {
 			outs++
 		}
 	}
-	bm := gen.NewBM(c.Rsize, machs, ins, outs, bonds)
+	var bm *bondmachine.Bondmachine
+	if len(c.ProcDomains) > 0 {
+		bm = new(bondmachine.Bondmachine)
+		bm.Rsize = c.Rsize
+		bm.Init()
+		for i := 0; i < ins; i++ {
+			bm.Add_input()
+		}
+		for i := 0; i < outs; i++ {
+			bm.Add_output()
+		}
+		for _, m := range machs {
+			bm.Domains = append(bm.Domains, m)
+		}
+		for _, d := range c.ProcDomains {
+			bm.Add_processor(d)
+		}
+		for _, b := range bonds {
+			bm.Add_bond([]string{b[0], b[1]})
+		}
+	} else {
+		bm = gen.NewBM(c.Rsize, machs, ins, outs, bonds)
+	}
+	if len(c.SO) > 0 && len(c.SOAttach) > 0 {
+		before := len(bm.Shared_objects)
+		bm.Add_shared_objects(c.SO)
+		if len(bm.Shared_objects) != before+len(c.SO) {
+			return nil, fmt.Errorf("shared object not instantiated: %v", c.SO)
+		}
+		for p, list := range c.SOAttach {
+			for _, so := range list {
+				bm.Connect_processor_shared_object([]string{fmt.Sprint(p), fmt.Sprint(so)})
+			}
+		}
+		return bm, nil
+	}
 	if len(c.SO) > 0 {
 		before := len(bm.Shared_objects)
 		bm.Add_shared_objects(c.SO)
@@ -306,6 +355,25 @@ func configs(tier string, seed int64) []cfg {
 			}
 		}
 	}
+	// processors that are not "processor p = domain p": one domain instantiated twice with different
+	// attachments, and two domains listed in reverse order
+	// (senders only: two processors that both send to and receive from one stack/queue are the recorded
+	// port-order finding)
+	for _, so := range []string{"stack:4", "queue:4"} {
+		ops := soOps[so][:1]
+		c := base("so-shared-domain:"+so, 8, append(append([]string{}, ops...), "j", "nop", "rset"))
+		c.SO = []string{so, strings.Replace(so, ":4", ":8", 1)}
+		c.Procs, c.ProcDomains = 2, []int{0, 0}
+		c.SOAttach = [][]int{{0, 1}, {1}}
+		cs = append(cs, c)
+		c2 := base("so-reversed-domains:"+so+"+lfsr8", 8, nil)
+		c2.SO = []string{so, "lfsr8:1"}
+		c2.Procs, c2.ProcDomains = 2, []int{1, 0}
+		c2.ProcOps = [][]string{append(append([]string{}, ops...), "lfsr82r", "j", "rset"), append(append([]string{}, ops...), "j", "rset")}
+		c2.Ops = c2.ProcOps[0]
+		c2.SOAttach = [][]int{{0}, {0, 1}}
+		cs = append(cs, c2)
+	}
 	// two kinds at once
 	cs = append(cs, func() cfg {
 		c := base("so:stack+queue×2", 8, []string{"r2t", "t2r", "r2q", "q2r", "j", "nop"})
@@ -379,6 +447,12 @@ func render(scratch string, c cfg) (fs []finding, other []string, files map[stri
 	files, gerr := hdl.FileSet(scratch, bm, conf, "iverilog")
 	if gerr != nil {
 		return nil, nil, nil, nil, gerr
+	}
+	if dump := os.Getenv("VERIF_C18_DUMP"); dump != "" && strings.Contains(c.Name, os.Getenv("VERIF_C18_DUMP_NAME")) {
+		os.MkdirAll(dump, 0o755)
+		for n, t := range files {
+			os.WriteFile(filepath.Join(dump, filepath.Base(n)), []byte(t), 0o644)
+		}
 	}
 	d, diags := vsim.ParseFiles(files)
 	diags = append(diags, d.Lint("", nil)...)
